@@ -156,7 +156,7 @@ def run_check(prop, tier="quick", facts_override=None, write_evidence=True, quie
     return (1 if new else 0), ctx, new
 
 
-TIERED_OK = ["C03", "C04", "C05", "C07", "C10", "C13", "C20"]
+TIERED_OK = ["C01", "C02", "C03", "C04", "C05", "C07", "C10", "C13", "C14", "C20"]
 
 
 def thorough_extras(prop, ctx):
